@@ -35,16 +35,6 @@ combinator's completeness (C04) and is checked by the harness against a valley-f
 namespace ScionVerif.Router
 open ScionVerif.Generated.Router
 
-/-- `StandardPath::try_reverse` on the field-level model (all segments reversed, CONS_DIR toggled,
-    pointers mirrored) -/
-def reversePath (p : Path) : Path :=
-  let lens := [p.seg0, p.seg1, p.seg2].filter (· != 0)
-  let r := lens.reverse
-  { currInf := p.infos.length - 1 - p.currInf, currHf := p.hops.length - 1 - p.currHf,
-    seg0 := r.getD 0 0, seg1 := r.getD 1 0, seg2 := r.getD 2 0,
-    infos := (p.infos.map (fun i => { i with consDir := !i.consDir })).reverse,
-    hops := p.hops.reverse }
-
 /-- **A beaconed segment is forwardable end to end in construction direction.** -/
 theorem segment_forwardable (macf : MacF) (t : Topo) (ts beta0 now : Nat) (es : List Entry)
     (hn : 2 ≤ es.length) (hmax : es.length ≤ MAX_TOTAL_HOPS + 1) (hc : ChainOK t es) (htm : Timely macf ts beta0 now es)
@@ -81,17 +71,36 @@ theorem reply_is_reversal (macf : MacF) (ts beta0 : Nat) (es : List Entry) (hn :
 
 /-! ## paths of two and three segments (crossovers at any AS whose link types allow the segment change) -/
 
+theorem list2_eq {α} (l : List α) (x y : α) (hl : l.length = 2) (h0 : l[0]? = some x) (h1 : l[1]? = some y) :
+    l = [x, y] := by
+  match l, hl with
+  | [a, b], _ => simp at h0 h1; rw [h0, h1]
+
+theorem list3_eq {α} (l : List α) (x y z : α) (hl : l.length = 3) (h0 : l[0]? = some x) (h1 : l[1]? = some y)
+    (h2 : l[2]? = some z) : l = [x, y, z] := by
+  match l, hl with
+  | [a, b, c], _ => simp at h0 h1 h2; rw [h0, h1, h2]
+
+/-- the info fields of the packet as delivered: every segment's SegID stands at the β of its last hop field in
+    travel order -/
+def infosEnd2 (macf : MacF) (a b : Seg) : List Info :=
+  [a.info (a.beta macf (a.es.length - 1)), b.info (b.beta macf (b.es.length - 1))]
+def infosEnd3 (macf : MacF) (a b c : Seg) : List Info :=
+  [a.info (a.beta macf (a.es.length - 1)), b.info (b.beta macf (b.es.length - 1)), c.info (c.beta macf (c.es.length - 1))]
+
 /-- **A path of two beaconed segments joined at one crossover AS is forwarded end to end**
-    (up – down incl. shortcuts and on-path destinations, up – core, core – down). -/
+    (up – down incl. shortcuts and on-path destinations, up – core, core – down), and the packet arrives with the
+    pointers on the last hop field and every SegID at the β of its segment's last hop field (`infosEnd2`). -/
 theorem path2_walk (macf : MacF) (t : Topo) (now : Nat) (a b : Seg)
     (ha : 2 ≤ a.es.length) (hb : 2 ≤ b.es.length)
     (hmax : a.es.length + b.es.length ≤ MAX_TOTAL_HOPS + 1)
     (ta : TravelOK t a) (tb : TravelOK t b) (ma : a.Timely macf now) (mb : b.Timely macf now)
     (jab : Junction t a b)
     (src dst : Entry) (hsrc : a.entry 0 = some src) (hdst : b.entry (b.es.length - 1) = some dst) :
-    ∃ q, walk macf t dst.ia now false (a.es.length + b.es.length + 2) src.ia 0
+    walk macf t dst.ia now false (a.es.length + b.es.length + 2) src.ia 0
         ((frame2 macf a b).pkt (infos2 macf a b) 0 0) 0 =
-      some (.delivered dst.ia, q, a.es.length + b.es.length - 1) := by
+      some (.delivered dst.ia, (frame2 macf a b).pkt (infosEnd2 macf a b) 1 (a.es.length + b.es.length - 1),
+            a.es.length + b.es.length - 1) := by
   have hfuel : a.es.length + b.es.length + 2 = (1 + (b.es.length - 2) + (1 + 3)) + (a.es.length - 1) := by omega
   have hsteps : a.es.length + b.es.length - 1 = 0 + (a.es.length - 1) + 1 + (b.es.length - 2) + 1 := by omega
   let F := frame2 macf a b
@@ -99,31 +108,40 @@ theorem path2_walk (macf : MacF) (t : Topo) (now : Nat) (a b : Seg)
   have oa := occ2_a macf a b ha
   have ob := occ2_b macf a b hb
   obtain ⟨ea, e0b, la, lb, hea, he0b, hia, hk, hla, hlb, hok⟩ := jab
-  obtain ⟨e1, I1, if1, h1e, h1a, h1I, h1o, h1w⟩ :=
+  have hst1 :=
     seg_travel macf t now dst.ia F a 0 0 hmF oa ta ma (a.es.length - 1) 0 src (infos2 macf a b) 0 0
       (1 + (b.es.length - 2) + (1 + 3)) (by omega) hsrc ⟨fun _ => rfl, fun h => by omega⟩
       (by simp [infos2, Seg.arrSid])
+  obtain ⟨e1, I1, if1, h1e, h1a, h1I, h1o, h1l, h1w⟩ := hst1
   rw [hea] at h1e; cases h1e
-  obtain ⟨e2, I2, if2, h2e, h2a, h2I, h2o, h2w⟩ :=
+  obtain ⟨e2, I2, if2, h2e, h2a, h2I, h2o, h2s, h2l, h2w⟩ :=
     seg_cross macf t now dst.ia F a b 0 0 hmF oa ob ta tb ma mb ea e0b I1 if1 (0 + (a.es.length - 1))
       ((b.es.length - 2) + (1 + 3)) la lb hea he0b hia hk hla hlb hok h1a h1I
       (by rw [h1o 1 (by omega)]; simp [infos2])
-  obtain ⟨e3, I3, if3, h3e, h3a, h3I, h3o, h3w⟩ :=
+  obtain ⟨e3, I3, if3, h3e, h3a, h3I, h3o, h3l, h3w⟩ :=
     seg_travel macf t now dst.ia F b (0 + 1) (0 + a.es.length) hmF ob tb mb (b.es.length - 2) 1 e2 I2 if2
       (0 + (a.es.length - 1) + 1) (1 + 3) (by omega) h2e h2a h2I
   rw [hdst] at h3e; cases h3e
-  obtain ⟨q, h6w⟩ := seg_deliver macf t now F b (0 + 1) (0 + a.es.length) ob tb mb
+  have h6w := seg_deliver macf t now F b (0 + 1) (0 + a.es.length) ob tb mb
     (by simp [F, frame2]) dst I3 if3 (0 + (a.es.length - 1) + 1 + (b.es.length - 2)) 3 hdst h3a h3I
-  refine ⟨q, ?_⟩
+  -- the info fields at delivery
+  have hfin : setAt I3 (0 + 1) (b.info (b.beta macf (b.es.length - 1))) = infosEnd2 macf a b := by
+    apply list2_eq
+    · simp [setAt, h3l, h2l, h1l, infos2]
+    · rw [setAt_get_ne _ _ _ _ (by omega), h3o 0 (by omega)]; exact h2s
+    · exact setAt_get_self _ _ _ _ h3I
+  rw [hfin] at h6w
   have e12 : 1 + (b.es.length - 2) + (1 + 3) = (b.es.length - 2) + (1 + 3) + 1 := by omega
   have e23 : (b.es.length - 2) + (1 + 3) = (1 + 3) + (b.es.length - 2) := by omega
   have e56 : 1 + 3 = 3 + 1 := rfl
-  rw [hfuel, hsteps, show (F.pkt (infos2 macf a b) 0 0) = F.pkt (infos2 macf a b) 0 (0 + 0) from rfl, h1w, e12, h2w,
-    e23, h3w, e56, h6w]
+  have hidx : 0 + a.es.length + (b.es.length - 1) = a.es.length + b.es.length - 1 := by omega
+  rw [hfuel, show (F.pkt (infos2 macf a b) 0 0) = F.pkt (infos2 macf a b) 0 (0 + 0) from rfl, h1w, e12, h2w,
+    e23, h3w, e56, h6w, hidx, ← hsteps]
 
 
 /-- **A path of three beaconed segments joined at two crossover ASes is forwarded end to end.**
-    (`a`, `b`, `c` in travel order, each in either direction; e.g. up – core – down.) -/
+    (`a`, `b`, `c` in travel order, each in either direction; e.g. up – core – down.)  The packet arrives with the
+    pointers on the last hop field and every SegID at the β of its segment's last hop field (`infosEnd3`). -/
 theorem path3_walk (macf : MacF) (t : Topo) (now : Nat) (a b c : Seg)
     (ha : 2 ≤ a.es.length) (hb : 2 ≤ b.es.length) (hc : 2 ≤ c.es.length)
     (hmax : a.es.length + b.es.length + c.es.length ≤ MAX_TOTAL_HOPS + 1)
@@ -131,9 +149,11 @@ theorem path3_walk (macf : MacF) (t : Topo) (now : Nat) (a b c : Seg)
     (ma : a.Timely macf now) (mb : b.Timely macf now) (mc : c.Timely macf now)
     (jab : Junction t a b) (jbc : Junction t b c)
     (src dst : Entry) (hsrc : a.entry 0 = some src) (hdst : c.entry (c.es.length - 1) = some dst) :
-    ∃ q, walk macf t dst.ia now false (a.es.length + b.es.length + c.es.length + 2) src.ia 0
+    walk macf t dst.ia now false (a.es.length + b.es.length + c.es.length + 2) src.ia 0
         ((frame3 macf a b c).pkt (infos3 macf a b c) 0 0) 0 =
-      some (.delivered dst.ia, q, a.es.length + b.es.length + c.es.length - 2) := by
+      some (.delivered dst.ia,
+            (frame3 macf a b c).pkt (infosEnd3 macf a b c) 2 (a.es.length + b.es.length + c.es.length - 1),
+            a.es.length + b.es.length + c.es.length - 2) := by
   let F := frame3 macf a b c
   have hmF : F.L0 + F.L1 + F.L2 ≤ MAX_TOTAL_HOPS + 1 := by simpa [F, frame3] using hmax
   have oa := occ3_a macf a b c ha
@@ -142,52 +162,196 @@ theorem path3_walk (macf : MacF) (t : Topo) (now : Nat) (a b c : Seg)
   obtain ⟨ea, e0b, la, lb, hea, he0b, hia, hk, hla, hlb, hok⟩ := jab
   obtain ⟨eb, e0c, la', lb', heb, he0c, hia', hk', hla', hlb', hok'⟩ := jbc
   -- 1. along segment a
-  obtain ⟨e1, I1, if1, h1e, h1a, h1I, h1o, h1w⟩ :=
+  obtain ⟨e1, I1, if1, h1e, h1a, h1I, h1o, h1l, h1w⟩ :=
     seg_travel macf t now dst.ia F a 0 0 hmF oa ta ma (a.es.length - 1) 0 src (infos3 macf a b c) 0 0
       (1 + (b.es.length - 2) + (1 + (c.es.length - 2) + (1 + 4))) (by omega) hsrc ⟨fun _ => rfl, fun h => by omega⟩
       (by simp [infos3, Seg.arrSid])
   rw [hea] at h1e; cases h1e
   -- 2. crossover a -> b
-  obtain ⟨e2, I2, if2, h2e, h2a, h2I, h2o, h2w⟩ :=
+  obtain ⟨e2, I2, if2, h2e, h2a, h2I, h2o, h2s, h2l, h2w⟩ :=
     seg_cross macf t now dst.ia F a b 0 0 hmF oa ob ta tb ma mb ea e0b I1 if1 (0 + (a.es.length - 1))
       ((b.es.length - 2) + (1 + (c.es.length - 2) + (1 + 4))) la lb hea he0b hia hk hla hlb hok h1a h1I
       (by rw [h1o 1 (by omega)]; simp [infos3])
   -- 3. along segment b
-  obtain ⟨e3, I3, if3, h3e, h3a, h3I, h3o, h3w⟩ :=
+  obtain ⟨e3, I3, if3, h3e, h3a, h3I, h3o, h3l, h3w⟩ :=
     seg_travel macf t now dst.ia F b (0 + 1) (0 + a.es.length) hmF ob tb mb (b.es.length - 2) 1 e2 I2 if2
       (0 + (a.es.length - 1) + 1) (1 + (c.es.length - 2) + (1 + 4)) (by omega) h2e h2a h2I
   rw [heb] at h3e; cases h3e
   -- 4. crossover b -> c
   have hI3c : I3[0 + 1 + 1]? = some (c.info (c.beta macf 0)) := by
     rw [h3o 2 (by omega), h2o 2 (by omega) (by omega), h1o 2 (by omega)]; simp [infos3]
-  obtain ⟨e4, I4, if4, h4e, h4a, h4I, h4o, h4w⟩ :=
+  obtain ⟨e4, I4, if4, h4e, h4a, h4I, h4o, h4s, h4l, h4w⟩ :=
     seg_cross macf t now dst.ia F b c (0 + 1) (0 + a.es.length) hmF ob oc tb tc mb mc eb e0c I3 if3
       (0 + (a.es.length - 1) + 1 + (b.es.length - 2)) ((c.es.length - 2) + (1 + 4)) la' lb' heb he0c hia' hk' hla' hlb' hok'
       h3a h3I hI3c
   -- 5. along segment c
-  obtain ⟨e5, I5, if5, h5e, h5a, h5I, h5o, h5w⟩ :=
+  obtain ⟨e5, I5, if5, h5e, h5a, h5I, h5o, h5l, h5w⟩ :=
     seg_travel macf t now dst.ia F c (0 + 1 + 1) (0 + a.es.length + b.es.length) hmF oc tc mc (c.es.length - 2) 1 e4 I4 if4
       (0 + (a.es.length - 1) + 1 + (b.es.length - 2) + 1) (1 + 4) (by omega) h4e h4a h4I
   rw [hdst] at h5e; cases h5e
   -- 6. delivery
-  obtain ⟨q, h6w⟩ := seg_deliver macf t now F c (0 + 1 + 1) (0 + a.es.length + b.es.length) oc tc mc
+  have h6w := seg_deliver macf t now F c (0 + 1 + 1) (0 + a.es.length + b.es.length) oc tc mc
     (by simp [F, frame3]) dst I5 if5 (0 + (a.es.length - 1) + 1 + (b.es.length - 2) + 1 + (c.es.length - 2)) 4 hdst h5a h5I
-  refine ⟨q, ?_⟩
+  -- the info fields at delivery
+  have hfin : setAt I5 (0 + 1 + 1) (c.info (c.beta macf (c.es.length - 1))) = infosEnd3 macf a b c := by
+    apply list3_eq
+    · simp [setAt, h5l, h4l, h3l, h2l, h1l, infos3]
+    · rw [setAt_get_ne _ _ _ _ (by omega), h5o 0 (by omega), h4o 0 (by omega) (by omega), h3o 0 (by omega)]; exact h2s
+    · rw [setAt_get_ne _ _ _ _ (by omega), h5o 1 (by omega)]; exact h4s
+    · exact setAt_get_self _ _ _ _ h5I
+  rw [hfin] at h6w
   have hfuel : a.es.length + b.es.length + c.es.length + 2 =
       (1 + (b.es.length - 2) + (1 + (c.es.length - 2) + (1 + 4))) + (a.es.length - 1) := by omega
   have hsteps : a.es.length + b.es.length + c.es.length - 2 =
       0 + (a.es.length - 1) + 1 + (b.es.length - 2) + 1 + (c.es.length - 2) + 1 := by omega
-  rw [hfuel, hsteps]
+  rw [hfuel]
   have e12 : 1 + (b.es.length - 2) + (1 + (c.es.length - 2) + (1 + 4)) = (b.es.length - 2) + (1 + (c.es.length - 2) + (1 + 4)) + 1 := by omega
   have e34 : 1 + (c.es.length - 2) + (1 + 4) = (c.es.length - 2) + (1 + 4) + 1 := by omega
   have e56 : 1 + 4 = 4 + 1 := rfl
-  have o1 : 0 + 0 = 0 := rfl
   rw [show (F.pkt (infos3 macf a b c) 0 0) = F.pkt (infos3 macf a b c) 0 (0 + 0) from rfl, h1w, e12, h2w]
   have e23 : (b.es.length - 2) + (1 + (c.es.length - 2) + (1 + 4)) = (1 + (c.es.length - 2) + (1 + 4)) + (b.es.length - 2) := by omega
   rw [e23, h3w, e34, h4w]
   have e45 : (c.es.length - 2) + (1 + 4) = (1 + 4) + (c.es.length - 2) := by omega
-  rw [e45, h5w, e56, h6w]
+  have hidx : 0 + a.es.length + b.es.length + (c.es.length - 1) = a.es.length + b.es.length + c.es.length - 1 := by omega
+  rw [e45, h5w, e56, h6w, hidx, ← hsteps]
 
+
+/-! ## the reply: the reversal of the packet as delivered is again a path of this shape, hence forwardable -/
+
+/-- the same beaconed segment, travelled the other way -/
+def Seg.flip (g : Seg) : Seg := { g with cons := !g.cons }
+
+theorem Seg.flip_len (g : Seg) : g.flip.es.length = g.es.length := rfl
+
+theorem Seg.flip_entry (g : Seg) (k : Nat) (hk : k < g.es.length) : g.flip.entry k = g.entry (g.es.length - 1 - k) := by
+  unfold Seg.entry Seg.idx Seg.flip
+  cases hc : g.cons <;> simp
+  congr 1; omega
+
+theorem Seg.flip_beta (macf : MacF) (g : Seg) (k : Nat) (hk : k < g.es.length) :
+    g.flip.beta macf k = g.beta macf (g.es.length - 1 - k) := by
+  unfold Seg.beta Seg.idx Seg.flip
+  cases hc : g.cons <;> simp
+  congr 1; omega
+
+theorem Seg.flip_hops (macf : MacF) (g : Seg) : g.flip.hops macf = (g.hops macf).reverse := by
+  unfold Seg.hops Seg.flip
+  cases hc : g.cons <;> simp
+
+theorem Seg.flip_timely (macf : MacF) (g : Seg) (now : Nat) (h : g.Timely macf now) : g.flip.Timely macf now := h
+
+theorem segChangeValid_symm (x y : LinkType) : segChangeValid x y = segChangeValid y x := by
+  cases x <;> cases y <;> rfl
+
+/-- a legal crossover is legal in the other direction too (the AS, its two links and its key are the same;
+    the generated link-type table is symmetric) -/
+theorem Junction.flip {t : Topo} {a b : Seg} (ha : 2 ≤ a.es.length) (hb : 2 ≤ b.es.length) (j : Junction t a b) :
+    Junction t b.flip a.flip := by
+  obtain ⟨e, e0, la, lb, he, he0, hia, hk, hla, hlb, hok⟩ := j
+  refine ⟨e0, e, lb, la, ?_, ?_, hia.symm, hk.symm, ?_, ?_, ?_⟩
+  · rw [Seg.flip_entry b _ (by rw [Seg.flip_len]; omega), Seg.flip_len]
+    have : b.es.length - 1 - (b.es.length - 1) = 0 := by omega
+    rw [this]; exact he0
+  · rw [Seg.flip_entry a 0 (by omega)]; simpa using he
+  · rw [hia]
+    have : tIn b.flip.cons e0 = tEg b.cons e0 := by cases hc : b.cons <;> simp [Seg.flip, tIn, tEg, hc]
+    rw [this]; exact hlb
+  · rw [hia]
+    have : tEg a.flip.cons e = tIn a.cons e := by cases hc : a.cons <;> simp [Seg.flip, tIn, tEg, hc]
+    rw [this]; exact hla
+  · rw [segChangeValid_symm]; exact hok
+
+/-- **The reversal (`try_reverse`) of a delivered two-segment packet is the two-segment packet over the same
+    segments travelled the other way, in the opposite order, with freshly initialised SegIDs and pointers.** -/
+theorem path2_reply (macf : MacF) (a b : Seg) (ha : 2 ≤ a.es.length) (hb : 2 ≤ b.es.length) :
+    reversePath ((frame2 macf a b).pkt (infosEnd2 macf a b) 1 (a.es.length + b.es.length - 1)) =
+      (frame2 macf b.flip a.flip).pkt (infos2 macf b.flip a.flip) 0 0 := by
+  have h0a : (a.es.length != 0) = true := bne_iff_ne.mpr (by omega)
+  have h0b : (b.es.length != 0) = true := bne_iff_ne.mpr (by omega)
+  have hba : b.flip.beta macf 0 = b.beta macf (b.es.length - 1) := by
+    rw [Seg.flip_beta macf b 0 (by omega)]; simp
+  have haa : a.flip.beta macf 0 = a.beta macf (a.es.length - 1) := by
+    rw [Seg.flip_beta macf a 0 (by omega)]; simp
+  simp only [reversePath, frame2, Frame.pkt, infosEnd2, infos2, Seg.flip_hops, hba, haa, Seg.flip_len]
+  simp [h0a, h0b, Seg.info, Seg.flip, Seg.hops_length]
+
+/-- **The reply to a delivered two-segment packet is forwarded back to the source and delivered there**: reverse
+    the packet exactly as it arrived (`path2_walk`) and send it from the destination AS. -/
+theorem path2_reply_walk (macf : MacF) (t : Topo) (now : Nat) (a b : Seg)
+    (ha : 2 ≤ a.es.length) (hb : 2 ≤ b.es.length)
+    (hmax : a.es.length + b.es.length ≤ MAX_TOTAL_HOPS + 1)
+    (ca : ChainOK t a.es) (cb : ChainOK t b.es) (ma : a.Timely macf now) (mb : b.Timely macf now)
+    (jab : Junction t a b)
+    (src dst : Entry) (hsrc : a.entry 0 = some src) (hdst : b.entry (b.es.length - 1) = some dst) :
+    ∃ q, walk macf t dst.ia now false (a.es.length + b.es.length + 2) src.ia 0
+           ((frame2 macf a b).pkt (infos2 macf a b) 0 0) 0 = some (.delivered dst.ia, q, a.es.length + b.es.length - 1) ∧
+         ∃ q', walk macf t src.ia now false (a.es.length + b.es.length + 2) dst.ia 0 (reversePath q) 0 =
+           some (.delivered src.ia, q', a.es.length + b.es.length - 1) := by
+  refine ⟨_, path2_walk macf t now a b ha hb hmax (travelOK_of_chain t a ca) (travelOK_of_chain t b cb) ma mb jab
+    src dst hsrc hdst, ?_⟩
+  rw [path2_reply macf a b ha hb]
+  have hsrc' : a.flip.entry (a.flip.es.length - 1) = some src := by
+    rw [Seg.flip_entry a _ (by rw [Seg.flip_len]; omega), Seg.flip_len]
+    have : a.es.length - 1 - (a.es.length - 1) = 0 := by omega
+    rw [this]; exact hsrc
+  have hdst' : b.flip.entry 0 = some dst := by
+    rw [Seg.flip_entry b 0 (by omega)]; simpa using hdst
+  have h := path2_walk macf t now b.flip a.flip hb ha (by simp only [Seg.flip_len]; omega)
+    (travelOK_of_chain t b.flip cb) (travelOK_of_chain t a.flip ca) (Seg.flip_timely macf b now mb)
+    (Seg.flip_timely macf a now ma) (Junction.flip ha hb jab) dst src hdst' hsrc'
+  simp only [Seg.flip_len] at h
+  have e1 : b.es.length + a.es.length = a.es.length + b.es.length := by omega
+  rw [e1] at h
+  exact ⟨_, h⟩
+
+/-- the three-segment version of `path2_reply` -/
+theorem path3_reply (macf : MacF) (a b c : Seg) (ha : 2 ≤ a.es.length) (hb : 2 ≤ b.es.length) (hc : 2 ≤ c.es.length) :
+    reversePath ((frame3 macf a b c).pkt (infosEnd3 macf a b c) 2 (a.es.length + b.es.length + c.es.length - 1)) =
+      (frame3 macf c.flip b.flip a.flip).pkt (infos3 macf c.flip b.flip a.flip) 0 0 := by
+  have h0a : (a.es.length != 0) = true := bne_iff_ne.mpr (by omega)
+  have h0b : (b.es.length != 0) = true := bne_iff_ne.mpr (by omega)
+  have h0c : (c.es.length != 0) = true := bne_iff_ne.mpr (by omega)
+  have hca : c.flip.beta macf 0 = c.beta macf (c.es.length - 1) := by
+    rw [Seg.flip_beta macf c 0 (by omega)]; simp
+  have hba : b.flip.beta macf 0 = b.beta macf (b.es.length - 1) := by
+    rw [Seg.flip_beta macf b 0 (by omega)]; simp
+  have haa : a.flip.beta macf 0 = a.beta macf (a.es.length - 1) := by
+    rw [Seg.flip_beta macf a 0 (by omega)]; simp
+  simp only [reversePath, frame3, Frame.pkt, infosEnd3, infos3, Seg.flip_hops, hca, hba, haa, Seg.flip_len]
+  simp [h0a, h0b, h0c, Seg.info, Seg.flip, Seg.hops_length]
+  omega
+
+/-- **The reply to a delivered three-segment packet (e.g. up – core – down) is forwarded back and delivered in
+    the source AS.** -/
+theorem path3_reply_walk (macf : MacF) (t : Topo) (now : Nat) (a b c : Seg)
+    (ha : 2 ≤ a.es.length) (hb : 2 ≤ b.es.length) (hc : 2 ≤ c.es.length)
+    (hmax : a.es.length + b.es.length + c.es.length ≤ MAX_TOTAL_HOPS + 1)
+    (ca : ChainOK t a.es) (cb : ChainOK t b.es) (cc : ChainOK t c.es)
+    (ma : a.Timely macf now) (mb : b.Timely macf now) (mc : c.Timely macf now)
+    (jab : Junction t a b) (jbc : Junction t b c)
+    (src dst : Entry) (hsrc : a.entry 0 = some src) (hdst : c.entry (c.es.length - 1) = some dst) :
+    ∃ q, walk macf t dst.ia now false (a.es.length + b.es.length + c.es.length + 2) src.ia 0
+           ((frame3 macf a b c).pkt (infos3 macf a b c) 0 0) 0 =
+             some (.delivered dst.ia, q, a.es.length + b.es.length + c.es.length - 2) ∧
+         ∃ q', walk macf t src.ia now false (a.es.length + b.es.length + c.es.length + 2) dst.ia 0 (reversePath q) 0 =
+           some (.delivered src.ia, q', a.es.length + b.es.length + c.es.length - 2) := by
+  refine ⟨_, path3_walk macf t now a b c ha hb hc hmax (travelOK_of_chain t a ca) (travelOK_of_chain t b cb)
+    (travelOK_of_chain t c cc) ma mb mc jab jbc src dst hsrc hdst, ?_⟩
+  rw [path3_reply macf a b c ha hb hc]
+  have hsrc' : a.flip.entry (a.flip.es.length - 1) = some src := by
+    rw [Seg.flip_entry a _ (by rw [Seg.flip_len]; omega), Seg.flip_len]
+    have : a.es.length - 1 - (a.es.length - 1) = 0 := by omega
+    rw [this]; exact hsrc
+  have hdst' : c.flip.entry 0 = some dst := by
+    rw [Seg.flip_entry c 0 (by omega)]; simpa using hdst
+  have h := path3_walk macf t now c.flip b.flip a.flip hc hb ha (by simp only [Seg.flip_len]; omega)
+    (travelOK_of_chain t c.flip cc) (travelOK_of_chain t b.flip cb) (travelOK_of_chain t a.flip ca)
+    (Seg.flip_timely macf c now mc) (Seg.flip_timely macf b now mb) (Seg.flip_timely macf a now ma)
+    (Junction.flip hb hc jbc) (Junction.flip ha hb jab) dst src hdst' hsrc'
+  simp only [Seg.flip_len] at h
+  have e1 : c.es.length + b.es.length + a.es.length = a.es.length + b.es.length + c.es.length := by omega
+  rw [e1] at h
+  exact ⟨_, h⟩
 
 /-! ## non-vacuity: a concrete 3-AS chain satisfies `ChainOK` and `Timely` -/
 example :
